@@ -651,6 +651,18 @@ def _auto_guard(n, fn):
         for c in ast.walk(fn):
             if isinstance(c, ast.Compare) and len(c.ops) == 1 and isinstance(c.ops[0], (ast.In, ast.NotIn)) and S.unparse(c.left) == idx and S.unparse(c.comparators[0]) == tbl and c.lineno <= n.lineno:
                 return True
+    if _is_text_var(n.value, fn) and isinstance(n.slice, ast.BinOp) and isinstance(n.slice.op, ast.Sub) and isinstance(n.slice.left, ast.Name) \
+            and isinstance(n.slice.right, ast.Constant) and n.slice.right.value == 1:
+        # text[v - 1] as a later operand of `v > w and ...` (w a cursor value: never negative, v never beyond the cursor it was copied from)
+        cur = n
+        while cur is not None and cur is not fn:
+            par = getattr(cur, "_parent", None)
+            if isinstance(par, ast.BoolOp) and isinstance(par.op, ast.And):
+                idx = next((i for i, v in enumerate(par.values) if v is cur), None)
+                for v in par.values[:idx or 0]:
+                    if isinstance(v, ast.Compare) and len(v.ops) == 1 and isinstance(v.ops[0], ast.Gt) and S.unparse(v.left) == n.slice.left.id:
+                        return True
+            cur = par
     if _is_text_var(n.value, fn) and isinstance(n.slice, ast.Name):
         # text[pos] / line[pos] inside `pos < n` guards of the hand-written scanners
         for c in ast.walk(fn):
